@@ -754,10 +754,10 @@ def signature_parser(run, F, PV, rid="R5"):
     ini = P.method(S, "__init__")
     g = A.cfg(ini, S)
     b = ini.params[1]
-    from sa.canon import canon_sums
+    from sa.canon import canon_sums, compose_slices
 
     def cs_(t):
-        return _strip(canon_sums(canon_text(run, ini, S, simplify_text(t), locals_=set(PV.defs(ini, S)) | set(ini.params))))
+        return _strip(compose_slices(canon_text(run, ini, S, simplify_text(t), locals_=set(PV.defs(ini, S)) | set(ini.params))))
     # what is stored as r / s: the hex of the two slices, whatever temporaries (r_len, offsets, an extracted integer parser) are used on the way;
     # index arithmetic is compared in canonical form (4 + n + 2 is 6 + n)
     exp = {"self._r": f"{b}[4:4 + {b}[3]].hex()", "self._s": f"{b}[6 + {b}[3]:6 + {b}[3] + {b}[5 + {b}[3]]].hex()"}
